@@ -52,7 +52,7 @@ func VerifC01Step() {
 	universe = append(universe, k)
 	x := nd.StringN("op.x", 1)
 	old, existed := m.get(k)
-	switch nd.Choice("op", 6) {
+	switch nd.Choice("op", 7) {
 	case 0: // PutItem replaces the whole item (attributes not mentioned disappear)
 		nd.Reach("put")
 		nd.Assert(vPut(c, m.full(k, map[string]string{"v": x})) == nil, "C01-put-noerr")
@@ -102,6 +102,15 @@ func VerifC01Step() {
 		m.del(k)
 	case 5: // GetItem changes nothing
 		nd.Reach("get")
+	case 6: // an UpdateItem that is rejected after its expression was evaluated is not a successful write
+		nd.Reach("rejected-update")
+		expr := "SET v = :x REMOVE p"
+		if withRange {
+			expr = "SET v = :x REMOVE s"
+		}
+		_, err := c.UpdateItem(vCtx, &dynamodb.UpdateItemInput{TableName: aws.String(vTbl), Key: k.item(withRange),
+			UpdateExpression: aws.String(expr), ExpressionAttributeValues: vItem{":x": vS(x)}})
+		nd.Assert(err != nil, "C01-update-removing-a-key-attribute-is-rejected")
 	}
 	vC01Battery(c, m, universe, "C01-step")
 	nd.Reach("end")
